@@ -37,7 +37,20 @@ func main() {
 	dump := flag.String("dump", "", "directory to dump SMT files")
 	verbose := flag.Bool("v", false, "verbose")
 	noEvidence := flag.Bool("no-evidence", false, "do not write evidence file")
+	overlay := flag.String("overlay", "", "repo-relative-file=replacement-file: verify with this file's content replaced (self-test only)")
+	noSelftest := flag.Bool("no-selftest", false, "thorough tier: skip the must-fail mutant self-test")
 	flag.Parse()
+	if *overlay != "" {
+		kv := strings.SplitN(*overlay, "=", 2)
+		if len(kv) != 2 {
+			fatal("-overlay wants file=replacement")
+		}
+		b, err := os.ReadFile(kv[1])
+		if err != nil {
+			fatal("overlay: %v", err)
+		}
+		overlayFiles[filepath.Join(*repo, kv[0])] = b
+	}
 	start := time.Now()
 
 	var props map[string]*PropSpec
@@ -185,6 +198,18 @@ func main() {
 		}
 	}
 
+	// thorough tier: every discharged obligation is re-submitted to the other solvers (independent confirmation);
+	// a solver that answers `sat` where another answered `unsat` is a disagreement and is reported.
+	confirmed, disagreements := 0, []string{}
+	if *tier == "thorough" && *overlay == "" {
+		confirmed, disagreements = crossConfirm(all, 10, 14)
+	}
+	// thorough tier: the must-fail corpus of this property (selftest/mutants.tsv) is run through -overlay
+	var selftest map[string]interface{}
+	if *tier == "thorough" && *overlay == "" && !*noSelftest && *only == "" {
+		selftest = runSelftest(*prop, *repo, *verif)
+	}
+
 	// report
 	known := loadKnown(filepath.Join(*verif, "known_findings.txt"))
 	replayDir := filepath.Join(*verif, "replays")
@@ -243,6 +268,12 @@ func main() {
 		suffix := " no-failing-input-found"
 		fmt.Printf("VIOLATION property=%s replay=%s obligation=%s result=%s%s\n", *prop, rp, ob.Name, ob.Result, suffix)
 	}
+	for _, d := range disagreements {
+		violations++
+		ob := &Obligation{Name: "solver-disagreement:" + d, Result: "disagreement"}
+		rp := writeReplay(replayDir, *prop, ob, d)
+		fmt.Printf("VIOLATION property=%s replay=%s solvers disagree on %s no-failing-input-found\n", *prop, rp, d)
+	}
 	for _, e := range engineErrs {
 		// the engine could not translate a function under contract: the obligations of that function are undecided.
 		violations++
@@ -297,6 +328,13 @@ func main() {
 				"samples":                  samples,
 				"integers":                 "mathematical (wrap-around not modelled)",
 			},
+		}
+		if *tier == "thorough" {
+			cov := ev["coverage"].(map[string]interface{})
+			cov["confirmed_by_second_solver"] = confirmed
+			if selftest != nil {
+				cov["must_fail_selftest"] = selftest
+			}
 		}
 		os.MkdirAll(filepath.Join(*verif, "evidence"), 0o755)
 		out, _ := json.MarshalIndent(ev, "", " ")
@@ -433,6 +471,11 @@ func solve(obs []*Obligation, timeout int, par int) {
 			file := filepath.Join(tmp, fmt.Sprintf("q%d.smt2", i))
 			os.WriteFile(file, []byte(ob.SMT), 0o644)
 			t0 := time.Now()
+			timeout := timeout
+			if ob.Kind == "cover" && timeout > 15 {
+				// satisfiability of quantified path conditions is either found quickly or not at all
+				timeout = 15
+			}
 			for _, s := range solvers {
 				res, out := runSolver(s, file, timeout)
 				if res == "unsat" || res == "sat" {
@@ -493,4 +536,117 @@ func getModel(s solverSpec, file, smt string, timeout int) string {
 		out = out[:20000] + "\n...(truncated)"
 	}
 	return out
+}
+
+// crossConfirm re-runs every discharged proof obligation on the solvers that did not discharge it.
+func crossConfirm(obs []*Obligation, timeout, par int) (int, []string) {
+	tmp, err := os.MkdirTemp("", "govc-x-")
+	if err != nil {
+		return 0, nil
+	}
+	defer os.RemoveAll(tmp)
+	var mu sync.Mutex
+	confirmed := 0
+	var dis []string
+	var wg sync.WaitGroup
+	sem := make(chan struct{}, par)
+	for i, ob := range obs {
+		if ob.Kind != "proof" || ob.Result != "unsat" || ob.SMT == "" {
+			continue
+		}
+		wg.Add(1)
+		go func(i int, ob *Obligation) {
+			defer wg.Done()
+			sem <- struct{}{}
+			defer func() { <-sem }()
+			file := filepath.Join(tmp, fmt.Sprintf("x%d.smt2", i))
+			os.WriteFile(file, []byte(ob.SMT), 0o644)
+			ok := false
+			for _, s := range solvers {
+				if s.name == ob.Solver {
+					continue
+				}
+				res, _ := runSolver(s, file, timeout)
+				if res == "unsat" {
+					ok = true
+					break
+				}
+				if res == "sat" {
+					mu.Lock()
+					dis = append(dis, fmt.Sprintf("%s (%s: unsat, %s: sat)", ob.Name, ob.Solver, s.name))
+					mu.Unlock()
+				}
+			}
+			if ok {
+				mu.Lock()
+				confirmed++
+				mu.Unlock()
+			}
+		}(i, ob)
+	}
+	wg.Wait()
+	sort.Strings(dis)
+	return confirmed, dis
+}
+
+// runSelftest applies each must-fail mutant of the property (selftest/mutants.tsv: id, prop, file, sed -E expr,
+// expected obligation text) to a copy of the file, verifies with -overlay and expects a VIOLATION naming the obligation.
+// A missed mutant is a weakness of the check, not a violation of the property: it is reported, not failed.
+func runSelftest(prop, repo, verif string) map[string]interface{} {
+	b, err := os.ReadFile(filepath.Join(verif, "selftest", "mutants.tsv"))
+	if err != nil {
+		return map[string]interface{}{"error": err.Error()}
+	}
+	self, _ := os.Executable()
+	tmp, err := os.MkdirTemp("", "govc-mut-")
+	if err != nil {
+		return map[string]interface{}{"error": err.Error()}
+	}
+	defer os.RemoveAll(tmp)
+	run, caught, skipped := 0, 0, 0
+	var missed, broken []string
+	deadline := time.Now().Add(240 * time.Second) // budget of the self-test inside one thorough run
+	for _, l := range strings.Split(string(b), "\n") {
+		f := strings.Split(l, "\t")
+		if len(f) < 5 || strings.HasPrefix(f[0], "#") || f[1] != prop {
+			continue
+		}
+		id, file, expr, expect := f[0], f[2], f[3], f[4]
+		if time.Now().After(deadline) {
+			skipped++
+			continue
+		}
+		orig, err := os.ReadFile(filepath.Join(repo, file))
+		if err != nil {
+			broken = append(broken, id+": "+err.Error())
+			continue
+		}
+		cmd := exec.Command("sed", "-E", expr)
+		cmd.Stdin = strings.NewReader(string(orig))
+		out, err := cmd.Output()
+		if err != nil || string(out) == string(orig) {
+			broken = append(broken, id+": mutant does not apply to the current source")
+			continue
+		}
+		mf := filepath.Join(tmp, "m.go")
+		os.WriteFile(mf, out, 0o644)
+		c2 := exec.Command(self, "-prop", prop, "-repo", repo, "-verif", verif, "-no-evidence", "-overlay", file+"="+mf)
+		res, _ := c2.CombinedOutput()
+		run++
+		hit := false
+		for _, rl := range strings.Split(string(res), "\n") {
+			if strings.HasPrefix(rl, "VIOLATION") && strings.Contains(rl, expect) {
+				hit = true
+			}
+		}
+		if strings.Contains(string(res), "BUILD-ERROR") {
+			broken = append(broken, id+": mutant does not compile")
+		} else if hit {
+			caught++
+		} else {
+			missed = append(missed, id)
+		}
+	}
+	fmt.Printf("must-fail self-test: %d mutants of %s run, %d detected, %d missed, %d not applicable, %d not run (time budget)\n", run, prop, caught, len(missed), len(broken), skipped)
+	return map[string]interface{}{"mutants_run": run, "detected": caught, "missed": missed, "not_applicable": broken, "not_run_time_budget": skipped}
 }
